@@ -173,6 +173,158 @@ package kvql
 //@     invariant 0 <= i && i <= len(chunk) && fresh(ret) && len(ret) == len(chunk)
 //@     invariant[C10, C03] rows: 0 <= r && r < i ==> is(ret[r], []float64) && len(as(ret[r], []float64)) == len(args) && (0 <= k && k < len(args) && is(av(args, k, chunk[r]), float64) ==> as(ret[r], []float64)[k] == fltof(av(args, k, chunk[r])))
 //
+// ---------------------------------------------------------------------------------------------
+// Vector forms (batch mode): row r of the result is what the row form returns on pair r.
+//@ func funcToStringVec(chunk []KVPair, args []Expression, ctx *ExecuteCtx) (ret []any, err error)
+//@   props C10 C03
+//@   ghost r Int
+//@   requires wfArgs(args, 1)
+//@   assigns ctx.Hit, mapof(ctx.FieldCaches), mapof(ctx.FieldChunkKeyCaches), mapof(ctx.FieldChunkCaches)
+//@   ensures own: err == nil ==> fresh(ret) && len(ret) == len(chunk)
+//@   ensures[C10, C03] rows: err == nil && 0 <= r && r < len(chunk) ==> aok(args, 0, chunk[r]) && isstr(ret[r]) && (isInt(av(args, 0, chunk[r])) ==> textOf(ret[r]) == itoa(intof(av(args, 0, chunk[r])))) && (isText(av(args, 0, chunk[r])) ==> textOf(ret[r]) == textOf(av(args, 0, chunk[r])))
+//@   loop 0
+//@     invariant 0 <= i && i <= len(chunk) && fresh(ret) && len(ret) == len(chunk) && len(rarg) == len(chunk) && (len(chunk) > 0 ==> ptr(rarg) != ptr(ret))
+//@     invariant[C10, C03] src: forall q Int :: 0 <= q && q < len(chunk) ==> evalok(args[0], ck(chunk, q), cv(chunk, q)) && rarg[q] == evalv(args[0], ck(chunk, q), cv(chunk, q))
+//@     invariant[C10, C03] rows: 0 <= r && r < i ==> isstr(ret[r]) && (isInt(av(args, 0, chunk[r])) ==> textOf(ret[r]) == itoa(intof(av(args, 0, chunk[r])))) && (isText(av(args, 0, chunk[r])) ==> textOf(ret[r]) == textOf(av(args, 0, chunk[r])))
+//
+//@ func funcToIntVec(chunk []KVPair, args []Expression, ctx *ExecuteCtx) (ret []any, err error)
+//@   props C10 C03
+//@   ghost r Int
+//@   requires wfArgs(args, 1)
+//@   assigns ctx.Hit, mapof(ctx.FieldCaches), mapof(ctx.FieldChunkKeyCaches), mapof(ctx.FieldChunkCaches)
+//@   ensures own: err == nil ==> fresh(ret) && len(ret) == len(chunk)
+//@   ensures[C10, C03] rows: err == nil && 0 <= r && r < len(chunk) ==> aok(args, 0, chunk[r]) && isint64(ret[r]) && (isText(av(args, 0, chunk[r])) && parseIntOk(textOf(av(args, 0, chunk[r]))) ==> intof(ret[r]) == parseInt(textOf(av(args, 0, chunk[r])))) && (isInt(av(args, 0, chunk[r])) ==> intof(ret[r]) == intof(av(args, 0, chunk[r])))
+//@   loop 0
+//@     invariant 0 <= i && i <= len(chunk) && fresh(ret) && len(ret) == len(chunk) && len(rarg) == len(chunk) && (len(chunk) > 0 ==> ptr(rarg) != ptr(ret))
+//@     invariant[C10, C03] src: forall q Int :: 0 <= q && q < len(chunk) ==> evalok(args[0], ck(chunk, q), cv(chunk, q)) && rarg[q] == evalv(args[0], ck(chunk, q), cv(chunk, q))
+//@     invariant[C10, C03] rows: 0 <= r && r < i ==> isint64(ret[r]) && (isText(av(args, 0, chunk[r])) && parseIntOk(textOf(av(args, 0, chunk[r]))) ==> intof(ret[r]) == parseInt(textOf(av(args, 0, chunk[r])))) && (isInt(av(args, 0, chunk[r])) ==> intof(ret[r]) == intof(av(args, 0, chunk[r])))
+//
+//@ func funcToFloatVec(chunk []KVPair, args []Expression, ctx *ExecuteCtx) (ret []any, err error)
+//@   props C10 C03
+//@   ghost r Int
+//@   requires wfArgs(args, 1)
+//@   assigns ctx.Hit, mapof(ctx.FieldCaches), mapof(ctx.FieldChunkKeyCaches), mapof(ctx.FieldChunkCaches)
+//@   ensures own: err == nil ==> fresh(ret) && len(ret) == len(chunk)
+//@   ensures[C10, C03] rows: err == nil && 0 <= r && r < len(chunk) ==> aok(args, 0, chunk[r]) && isf64(ret[r]) && (isText(av(args, 0, chunk[r])) && parseFloatOk(textOf(av(args, 0, chunk[r]))) ==> fltof(ret[r]) == parseFloat(textOf(av(args, 0, chunk[r]))))
+//@   loop 0
+//@     invariant 0 <= i && i <= len(chunk) && fresh(ret) && len(ret) == len(chunk) && len(rarg) == len(chunk) && (len(chunk) > 0 ==> ptr(rarg) != ptr(ret))
+//@     invariant[C10, C03] src: forall q Int :: 0 <= q && q < len(chunk) ==> evalok(args[0], ck(chunk, q), cv(chunk, q)) && rarg[q] == evalv(args[0], ck(chunk, q), cv(chunk, q))
+//@     invariant[C10, C03] rows: 0 <= r && r < i ==> isf64(ret[r]) && (isText(av(args, 0, chunk[r])) && parseFloatOk(textOf(av(args, 0, chunk[r]))) ==> fltof(ret[r]) == parseFloat(textOf(av(args, 0, chunk[r]))))
+//
+//@ func funcIsIntVec(chunk []KVPair, args []Expression, ctx *ExecuteCtx) (ret []any, err error)
+//@   props C10 C03
+//@   ghost r Int
+//@   requires wfArgs(args, 1)
+//@   assigns ctx.Hit, mapof(ctx.FieldCaches), mapof(ctx.FieldChunkKeyCaches), mapof(ctx.FieldChunkCaches)
+//@   ensures own: err == nil ==> fresh(ret) && len(ret) == len(chunk)
+//@   ensures[C10, C03] rows: err == nil && 0 <= r && r < len(chunk) ==> aok(args, 0, chunk[r]) && ret[r] == ABool(isInt(av(args, 0, chunk[r])) || (isText(av(args, 0, chunk[r])) && parseIntOk(textOf(av(args, 0, chunk[r])))))
+//@   loop 0
+//@     invariant 0 <= i && i <= len(chunk) && fresh(ret) && len(ret) == len(chunk) && len(rarg) == len(chunk) && (len(chunk) > 0 ==> ptr(rarg) != ptr(ret))
+//@     invariant[C10, C03] src: forall q Int :: 0 <= q && q < len(chunk) ==> evalok(args[0], ck(chunk, q), cv(chunk, q)) && rarg[q] == evalv(args[0], ck(chunk, q), cv(chunk, q))
+//@     invariant[C10, C03] rows: 0 <= r && r < i ==> ret[r] == ABool(isInt(av(args, 0, chunk[r])) || (isText(av(args, 0, chunk[r])) && parseIntOk(textOf(av(args, 0, chunk[r])))))
+//
+//@ func funcIsFloatVec(chunk []KVPair, args []Expression, ctx *ExecuteCtx) (ret []any, err error)
+//@   props C10 C03
+//@   ghost r Int
+//@   requires wfArgs(args, 1)
+//@   assigns ctx.Hit, mapof(ctx.FieldCaches), mapof(ctx.FieldChunkKeyCaches), mapof(ctx.FieldChunkCaches)
+//@   ensures own: err == nil ==> fresh(ret) && len(ret) == len(chunk)
+//@   ensures[C10, C03] rows: err == nil && 0 <= r && r < len(chunk) ==> aok(args, 0, chunk[r]) && ret[r] == ABool(isFlt(av(args, 0, chunk[r])) || (isText(av(args, 0, chunk[r])) && parseFloatOk(textOf(av(args, 0, chunk[r])))))
+//@   loop 0
+//@     invariant 0 <= i && i <= len(chunk) && fresh(ret) && len(ret) == len(chunk) && len(rarg) == len(chunk) && (len(chunk) > 0 ==> ptr(rarg) != ptr(ret))
+//@     invariant[C10, C03] src: forall q Int :: 0 <= q && q < len(chunk) ==> evalok(args[0], ck(chunk, q), cv(chunk, q)) && rarg[q] == evalv(args[0], ck(chunk, q), cv(chunk, q))
+//@     invariant[C10, C03] rows: 0 <= r && r < i ==> ret[r] == ABool(isFlt(av(args, 0, chunk[r])) || (isText(av(args, 0, chunk[r])) && parseFloatOk(textOf(av(args, 0, chunk[r])))))
+//
+//@ func funcStrlenVec(chunk []KVPair, args []Expression, ctx *ExecuteCtx) (ret []any, err error)
+//@   props C10 C03
+//@   ghost r Int
+//@   requires wfArgs(args, 1)
+//@   assigns ctx.Hit, mapof(ctx.FieldCaches), mapof(ctx.FieldChunkKeyCaches), mapof(ctx.FieldChunkCaches)
+//@   ensures own: err == nil ==> fresh(ret) && len(ret) == len(chunk)
+//@   ensures[C10, C03] rows: err == nil && 0 <= r && r < len(chunk) ==> aok(args, 0, chunk[r]) && (isText(av(args, 0, chunk[r])) ==> ret[r] == AInt(blen(textOf(av(args, 0, chunk[r])))))
+//@   loop 0
+//@     invariant 0 <= i && i <= len(chunk) && fresh(ret) && len(ret) == len(chunk) && len(rarg) == len(chunk) && (len(chunk) > 0 ==> ptr(rarg) != ptr(ret))
+//@     invariant[C10, C03] src: forall q Int :: 0 <= q && q < len(chunk) ==> evalok(args[0], ck(chunk, q), cv(chunk, q)) && rarg[q] == evalv(args[0], ck(chunk, q), cv(chunk, q))
+//@     invariant[C10, C03] rows: 0 <= r && r < i ==> (isText(av(args, 0, chunk[r])) ==> ret[r] == AInt(blen(textOf(av(args, 0, chunk[r])))))
+//
+// split(text, sep): the list strings.Split produces from exactly these two values (T-STD; the
+// elements themselves are not modelled: splitOf names the provenance of the list).
+//@ define splitOf(x Any, s B, sep B) Bool = is(x, []string) && splitS(ptr(as(x, []string))) == s && splitSep(ptr(as(x, []string))) == sep && len(as(x, []string)) == splitN(ptr(as(x, []string)))
+//@ func funcSplit(kv KVPair, args []Expression, ctx *ExecuteCtx) (ret any, err error)
+//@   props C10 C05
+//@   requires wfArgs(args, 2)
+//@   requires[C05] coherent: coherent(ctx, val(kv.Key), val(kv.Value)) && wfCtx(ctx) && wfRefs()
+//@   ensures[C05] coherent: coherent(ctx, val(kv.Key), val(kv.Value))
+//@   assigns ctx.Hit, mapof(ctx.FieldCaches)
+//@   ensures[C10] parts: err == nil ==> aok(args, 0, kv) && aok(args, 1, kv) && (isText(av(args, 0, kv)) && isText(av(args, 1, kv)) ==> splitOf(ret, textOf(av(args, 0, kv)), textOf(av(args, 1, kv))))
+//
+//@ func funcSplitVec(chunk []KVPair, args []Expression, ctx *ExecuteCtx) (ret []any, err error)
+//@   props C10 C03
+//@   ghost r Int
+//@   requires wfArgs(args, 2)
+//@   assigns ctx.Hit, mapof(ctx.FieldCaches), mapof(ctx.FieldChunkKeyCaches), mapof(ctx.FieldChunkCaches)
+//@   ensures own: err == nil ==> (isnil(ret) || fresh(ret)) && len(ret) == len(chunk)
+//@   ensures[C10, C03] rows: err == nil && 0 <= r && r < len(chunk) ==> aok(args, 0, chunk[r]) && aok(args, 1, chunk[r]) && (isText(av(args, 0, chunk[r])) && isText(av(args, 1, chunk[r])) ==> splitOf(ret[r], textOf(av(args, 0, chunk[r])), textOf(av(args, 1, chunk[r]))))
+//@   loop 0
+//@     invariant 0 <= i && i <= len(chunk) && (isnil(values) || fresh(values)) && (isnil(spliters) || fresh(spliters)) && len(values) == len(chunk) && len(spliters) == len(chunk) && (len(chunk) > 0 ==> ptr(values) != ptr(spliters))
+//@     invariant[C10, C03] ok: forall q Int :: 0 <= q && q < len(chunk) ==> evalok(args[0], ck(chunk, q), cv(chunk, q)) && evalok(args[1], ck(chunk, q), cv(chunk, q)) && spliters[q] == evalv(args[1], ck(chunk, q), cv(chunk, q))
+//@     invariant[C10, C03] src: forall q Int :: i <= q && q < len(chunk) ==> values[q] == evalv(args[0], ck(chunk, q), cv(chunk, q))
+//@     invariant[C10, C03] rows: 0 <= r && r < i ==> (isText(av(args, 0, chunk[r])) && isText(av(args, 1, chunk[r])) ==> splitOf(values[r], textOf(av(args, 0, chunk[r])), textOf(av(args, 1, chunk[r]))))
+//
+//@ func funcSubStrVec(chunk []KVPair, args []Expression, ctx *ExecuteCtx) (ret []any, err error)
+//@   props C10 C03
+//@   ghost r Int
+//@   requires wfArgs(args, 3)
+//@   assigns ctx.Hit, mapof(ctx.FieldCaches), mapof(ctx.FieldChunkKeyCaches), mapof(ctx.FieldChunkCaches)
+//@   ensures own: err == nil ==> (isnil(ret) || fresh(ret)) && len(ret) == len(chunk)
+//@   ensures[C10, C03] rows: err == nil && 0 <= r && r < len(chunk) ==> aok(args, 0, chunk[r]) && aok(args, 1, chunk[r]) && aok(args, 2, chunk[r]) && (isText(av(args, 0, chunk[r])) && isInt(av(args, 1, chunk[r])) && isInt(av(args, 2, chunk[r])) ==> isstr(ret[r]) && textOf(ret[r]) == subText(textOf(av(args, 0, chunk[r])), intof(av(args, 1, chunk[r])), intof(av(args, 2, chunk[r]))))
+//@   loop 0
+//@     invariant 0 <= i && i <= len(chunk) && (isnil(values) || fresh(values)) && (isnil(starts) || fresh(starts)) && (isnil(lengths) || fresh(lengths)) && len(values) == len(chunk) && len(starts) == len(chunk) && len(lengths) == len(chunk) && (len(chunk) > 0 ==> ptr(values) != ptr(starts) && ptr(values) != ptr(lengths))
+//@     invariant[C10, C03] ok: forall q Int :: 0 <= q && q < len(chunk) ==> evalok(args[0], ck(chunk, q), cv(chunk, q)) && evalok(args[1], ck(chunk, q), cv(chunk, q)) && evalok(args[2], ck(chunk, q), cv(chunk, q)) && starts[q] == evalv(args[1], ck(chunk, q), cv(chunk, q)) && lengths[q] == evalv(args[2], ck(chunk, q), cv(chunk, q))
+//@     invariant[C10, C03] src: forall q Int :: i <= q && q < len(chunk) ==> values[q] == evalv(args[0], ck(chunk, q), cv(chunk, q))
+//@     invariant[C10, C03] rows: 0 <= r && r < i ==> (isText(av(args, 0, chunk[r])) && isInt(av(args, 1, chunk[r])) && isInt(av(args, 2, chunk[r])) ==> isstr(values[r]) && textOf(values[r]) == subText(textOf(av(args, 0, chunk[r])), intof(av(args, 1, chunk[r])), intof(av(args, 2, chunk[r]))))
+//
+//@ func funcLenVec(chunk []KVPair, args []Expression, ctx *ExecuteCtx) (ret []any, err error)
+//@   props C10 C03
+//@   ghost r Int
+//@   requires wfArgs(args, 1)
+//@   assigns ctx.Hit, mapof(ctx.FieldCaches), mapof(ctx.FieldChunkKeyCaches), mapof(ctx.FieldChunkCaches)
+//@   ensures own: err == nil ==> (isnil(ret) || fresh(ret)) && len(ret) == len(chunk)
+//@   ensures[C10, C03] rows: err == nil && 0 <= r && r < len(chunk) ==> aok(args, 0, chunk[r]) && (isList(av(args, 0, chunk[r])) ==> is(ret[r], int) && intof(ret[r]) == listLen(av(args, 0, chunk[r])))
+//@   loop 0
+//@     invariant 0 <= i && i <= len(chunk) && (isnil(rarg) || fresh(rarg)) && len(rarg) == len(chunk)
+//@     invariant[C10, C03] ok: forall q Int :: 0 <= q && q < len(chunk) ==> evalok(args[0], ck(chunk, q), cv(chunk, q))
+//@     invariant[C10, C03] src: forall q Int :: i <= q && q < len(chunk) ==> rarg[q] == evalv(args[0], ck(chunk, q), cv(chunk, q))
+//@     invariant[C10, C03] rows: 0 <= r && r < i ==> (isList(av(args, 0, chunk[r])) ==> is(rarg[r], int) && intof(rarg[r]) == listLen(av(args, 0, chunk[r])))
+//
+// list(...): int elements when its first value is an integer (or text that reads as one), float
+// elements otherwise - decided row by row in both iteration modes (D25 repaired).
+//@ define listInt(x Any) Bool = is(x, int) || is(x, uint) || is(x, int32) || is(x, uint32) || is(x, int64) || is(x, uint64) || (isText(x) && parseIntOk(textOf(x)))
+//@ func funcToList(kv KVPair, args []Expression, ctx *ExecuteCtx) (ret any, err error)
+//@   props C10 C05
+//@   ghost k Int
+//@   requires len(args) >= 1 && (forall i Int :: 0 <= i && i < len(args) ==> args[i] != nil)
+//@   requires[C05] coherent: coherent(ctx, val(kv.Key), val(kv.Value)) && wfCtx(ctx) && wfRefs()
+//@   ensures[C05] coherent: coherent(ctx, val(kv.Key), val(kv.Value))
+//@   assigns ctx.Hit, mapof(ctx.FieldCaches)
+//@   ensures[C10] kind: err == nil ==> aok(args, 0, kv) && ite(listInt(av(args, 0, kv)), is(ret, []int64) && len(as(ret, []int64)) == len(args), is(ret, []float64) && len(as(ret, []float64)) == len(args))
+//@   ensures[C10] ints: err == nil && listInt(av(args, 0, kv)) && 0 <= k && k < len(args) && isInt(av(args, k, kv)) ==> as(ret, []int64)[k] == intof(av(args, k, kv))
+//@   ensures[C10] floats: err == nil && !listInt(av(args, 0, kv)) && 0 <= k && k < len(args) && is(av(args, k, kv), float64) ==> as(ret, []float64)[k] == fltof(av(args, k, kv))
+//
+//@ func funcToListVec(chunk []KVPair, args []Expression, ctx *ExecuteCtx) (ret []any, err error)
+//@   props C10 C03 C05
+//@   ghost r Int, k Int
+//@   requires len(args) >= 1 && (forall i Int :: 0 <= i && i < len(args) ==> args[i] != nil)
+//@   requires[C05] wf: wfCtx(ctx) && wfRefs()
+//@   assigns ctx.Hit, mapof(ctx.FieldCaches)
+//@   ensures own: err == nil ==> fresh(ret) && len(ret) == len(chunk)
+//@   ensures[C10, C03] kind: err == nil && 0 <= r && r < len(chunk) ==> aok(args, 0, chunk[r]) && ite(listInt(av(args, 0, chunk[r])), is(ret[r], []int64) && len(as(ret[r], []int64)) == len(args), is(ret[r], []float64) && len(as(ret[r], []float64)) == len(args))
+//@   ensures[C10, C03] ints: err == nil && 0 <= r && r < len(chunk) && listInt(av(args, 0, chunk[r])) && 0 <= k && k < len(args) && isInt(av(args, k, chunk[r])) ==> as(ret[r], []int64)[k] == intof(av(args, k, chunk[r]))
+//@   loop 0
+//@     invariant 0 <= i && i <= len(chunk) && fresh(ret) && len(ret) == len(chunk)
+//@     invariant[C10, C03] kind: 0 <= r && r < i ==> aok(args, 0, chunk[r]) && ite(listInt(av(args, 0, chunk[r])), is(ret[r], []int64) && len(as(ret[r], []int64)) == len(args), is(ret[r], []float64) && len(as(ret[r], []float64)) == len(args))
+//@     invariant[C10, C03] ints: 0 <= r && r < i && listInt(av(args, 0, chunk[r])) && 0 <= k && k < len(args) && isInt(av(args, k, chunk[r])) ==> as(ret[r], []int64)[k] == intof(av(args, k, chunk[r]))
+//
 // Indexing with [n] returns element n (counting from 0) of any list value.
 //@ func (e *FieldAccessExpr) execListAccess(idx int, left any) (fval any, err error)
 //@   props C10
